@@ -845,6 +845,14 @@ impl<TokenIter: Iterator<Item = Result<Token>>> Parser<TokenIter> {
     }
 
     fn transform_formals(args: Datum) -> Result<ParameterFormals> {
+        let formals = Self::transform_formals_unchecked(args)?;
+        // every formal has to be an identifier: (lambda ((a) b) ...) is rejected here instead of
+        // reaching unreachable!() when the procedure is applied
+        formals.clone().split()?;
+        Ok(formals)
+    }
+
+    fn transform_formals_unchecked(args: Datum) -> Result<ParameterFormals> {
         let location = args.location;
         Ok(match args {
             Datum {
